@@ -90,6 +90,7 @@ func init() {
 			h("cont.H_Hist", noAs2(hist(2, 2, 2, 0, 1)), noAs2(hist(2, 2, 4, 1, 1)), histCov, 0, histDesc),
 			h("cont.H_Hist", auxnil(noAs2(hist(4, 2, 3, 1, 1))), auxnil(noAs2(hist(4, 2, 4, 2, 1))), histCov, 20, histDesc),
 			h("cont.H_FuncKinds", map[string]int{"order_schemes": 1}, map[string]int{"order_schemes": 2}, []string{"resolved"}, 20, "two registrations under two names whose constructors are function values of one kind {top-level functions, closures of one //go:noinline factory, method values of one method, two generic instantiations, reflect.MakeFunc functions, closures consuming a MakeFunc-built dependency of another signature, one generic instantiation twice, constructors whose parameter objects are two function-local types of the same name with differently tagged fields} x lifetime x registration order: each identity must be produced by exactly the function value registered for it"),
+			h("cont.H_SharedCodeConc", map[string]int{"rounds": 1, "race": 0, "order_schemes": 1}, map[string]int{"rounds": 2, "race": 0, "order_schemes": 1}, []string{"both_done"}, 10, "two goroutines resolving, in their own scopes, services whose constructors share code: reflect.MakeFunc values of two signatures, or closures of one literal under two names whose dependency's constructor yields (another resolution runs between choosing the function value and calling it); every interleaving at those points; each identity built by exactly its own function value"),
 		}},
 		propertySpec{ID: "C07", Harnesses: []harnessSpec{
 			h("cont.H_Build", bld(0, 3, 1), bld(0, 3, 2), append([]string{"model_conflict"}, buildCov...), 30, buildDesc),
@@ -205,7 +206,7 @@ func init() {
 	hcb := h("cont.H_CloseInCallback", map[string]int{"order_schemes": 1}, map[string]int{"order_schemes": 2}, []string{"callback_closed"}, 10, cbDesc)
 	properties = append(properties,
 		propertySpec{ID: "C09", Harnesses: []harnessSpec{hc1, hcb, hrace, hrace2,
-			h("cont.H_SharedCodeConc", map[string]int{"rounds": 2, "order_schemes": 1}, map[string]int{"rounds": 3, "order_schemes": 1}, []string{"both_done"}, 10, "(happens-before race detector on) scoped or transient services whose constructors are reflect.MakeFunc values of two different signatures - natively one code pointer, so the analysis cache keeps being rewritten after Build - resolved alternately by two goroutines in their own scopes; every interleaving at the resolution boundaries; no race, no panic, no error, each service built by its own constructor"),
+			h("cont.H_SharedCodeConc", map[string]int{"rounds": 2, "order_schemes": 1}, map[string]int{"rounds": 2, "order_schemes": 1}, []string{"both_done"}, 10, "(happens-before race detector on) scoped or transient services whose constructors share code - reflect.MakeFunc values of two different signatures (natively one code pointer, so the analysis cache keeps being rewritten after Build), or closures of one literal under two names with a yielding dependency - resolved alternately by two goroutines in their own scopes; every interleaving at the resolution boundaries; no race, no panic, no error, each service built by its own constructor"),
 		}},
 		propertySpec{ID: "C13", Harnesses: []harnessSpec{
 			h("cont.H_Closed", map[string]int{"order_schemes": 2}, map[string]int{"order_schemes": 4}, []string{"close_node", "cancel_scope_ctx", "cancel_child_ctx"}, 20, closedDesc),
